@@ -7,6 +7,7 @@ Import ListNotations.
 
 Section FmmGlue.
 Context {A : Type} {RO : ops A} {Hring : IsRing RO}.
+Variable ver : fmm_version.
 Notation r0 := (o0 RO).
 Notation r1 := (o1 RO).
 Notation radd := (oadd RO).
@@ -76,12 +77,22 @@ Proof.
 Qed.
 
 (* for a support that is a prefix of the element list, position = element *)
-Lemma slot_pos_exact_prefix : forall n, slot_exact slot_pos (seq 0 n).
-Proof. intros n pe H. unfold slot_pos. apply enum_seq in H. assumption. Qed.
-
-Lemma msp_ok_prefix : forall n, msp_ok (seq 0 n) = true.
+Lemma slot_pos_exact_prefix : forall n, slot_exact (slot_pos ver) (seq 0 n).
 Proof.
-  intros n. unfold msp_ok. apply forallb_forall. intros e He. apply in_seq in He.
+  intros n pe H. unfold slot_pos. destruct (v_transform_by_position ver); [|reflexivity].
+  apply enum_seq in H. assumption.
+Qed.
+
+(* the repaired indexing addresses the element on every support *)
+Lemma slot_pos_exact_fixed : forall supp, v_transform_by_position ver = false -> slot_exact (slot_pos ver) supp.
+Proof. intros supp Hv pe _. unfold slot_pos. rewrite Hv. reflexivity. Qed.
+Lemma msp_ok_fixed : forall supp, v_msp_store_by_element ver = false -> msp_ok ver supp = true.
+Proof. intros supp Hv. unfold msp_ok. rewrite Hv. reflexivity. Qed.
+
+Lemma msp_ok_prefix : forall n, msp_ok ver (seq 0 n) = true.
+Proof.
+  intros n. unfold msp_ok. destruct (v_msp_store_by_element ver); [|reflexivity].
+  apply forallb_forall. intros e He. apply in_seq in He.
   rewrite seq_length. apply Nat.ltb_lt. lia.
 Qed.
 
@@ -355,7 +366,7 @@ Hypothesis Hnb_nodup : forall e, In e Et -> NoDup (nbrs e).
 Hypothesis Hnb : forall e f, In e Et -> In f Es -> memb f (nbrs e) = adjacent (g_verts g e) (g_verts g f).
 Hypothesis Hcols : forall f j, In f Es -> (j < s_nshape ss)%nat -> (s_l2g ss f j < n)%nat.
 Hypothesis Hpcols : forall pr j, In pr pairs -> (j < s_nshape ss)%nat -> (s_l2g ss (sp_f pr) j < n)%nat.
-Hypothesis Hok : maps_ok Et Es = true.
+Hypothesis Hok : maps_ok ver Et Es = true.
 
 Notation Sing := (scalar_singular RO g st ss ks pairs).
 Notation Dense := (scalar_dense RO g st ss quad kr ks Et Es pairs).
@@ -366,7 +377,7 @@ Proof. reflexivity. Qed.
 (* single layer: the dense kernel is component 0 of the evaluator's kernel *)
 Theorem glue_single_layer_correct : forall x,
   (forall a b nx ny, kr a b nx ny = G4 a b 0%nat) ->
-  exists f, glue_single_layer RO G4 g g st ss Et Es nE quad nbrs Sing x = Some f /\
+  exists f, glue_single_layer RO ver G4 g g st ss Et Es nE quad nbrs Sing x = Some f /\
             forall I, f I = matvec r0 radd rmul n (fun I J => ent I J Dense) x I.
 Proof.
   intros x Hk. unfold glue_single_layer. rewrite Hok. eexists. split; [reflexivity|]. intros I.
@@ -384,7 +395,7 @@ Qed.
 (* double layer: dense kernel = - grad_x G . n_y  (= dG/dn_y) *)
 Theorem glue_double_layer_correct : forall x,
   (forall a b nx ny, kr a b nx ny = r0 - sumN 3 (fun c => G4 a b (S c) * comp ny c)) ->
-  exists f, glue_double_layer RO G4 g g st ss Et Es nE quad nbrs Sing x = Some f /\
+  exists f, glue_double_layer RO ver G4 g g st ss Et Es nE quad nbrs Sing x = Some f /\
             forall I, f I = matvec r0 radd rmul n (fun I J => ent I J Dense) x I.
 Proof.
   intros x Hk. unfold glue_double_layer. rewrite Hok. eexists. split; [reflexivity|]. intros I.
@@ -442,7 +453,7 @@ Qed.
 (* adjoint double layer: dense kernel = grad_x G . n_x *)
 Theorem glue_adjoint_double_layer_correct : forall x,
   (forall a b nx ny, kr a b nx ny = sumN 3 (fun c => G4 a b (S c) * comp nx c)) ->
-  exists f, glue_adjoint_double_layer RO G4 g g st ss Et Es nE quad nbrs Sing x = Some f /\
+  exists f, glue_adjoint_double_layer RO ver G4 g g st ss Et Es nE quad nbrs Sing x = Some f /\
             forall I, f I = matvec r0 radd rmul n (fun I J => ent I J Dense) x I.
 Proof.
   intros x Hk. unfold glue_adjoint_double_layer. rewrite Hok. eexists. split; [reflexivity|]. intros I.
@@ -549,8 +560,8 @@ Hypothesis Hnb : forall e f, In e Et -> In f Es -> memb f (nbrs e) = adjacent (g
 Hypothesis Hcols : forall f j, In f Es -> (j < s_nshape ss)%nat -> (s_l2g ss f j < n)%nat.
 Hypothesis Hpcols : forall pr j, In pr pairs -> (j < s_nshape ss)%nat -> (s_l2g ss (sp_f pr) j < n)%nat.
 (* the transforms address point slots by position in support_elements: exact only if position = element *)
-Hypothesis Hpos_t : slot_exact slot_pos Et.
-Hypothesis Hpos_s : slot_exact slot_pos Es.
+Hypothesis Hpos_t : slot_exact (slot_pos ver) Et.
+Hypothesis Hpos_s : slot_exact (slot_pos ver) Es.
 Hypothesis Hk : forall a b nx ny, kr a b nx ny = G4 a b 0%nat.
 
 Notation adj := (fun e f => adjacent (g_verts g e) (g_verts g f)).
@@ -563,15 +574,15 @@ Hypothesis HJt : forall e, In e Et -> g_intel g e * rinv (g_intel g e) = r1.
 Hypothesis HJs : forall f, In f Es -> g_intel g f * rinv (g_intel g f) = r1.
 
 Theorem glue_efield_correct : forall x I,
-  glue_efield RO G4 g g st ss Et Es nE quad nbrs (efield_singular RO g st ss ks mik ik pairs) mik ik x I =
+  glue_efield RO ver G4 g g st ss Et Es nE quad nbrs (efield_singular RO g st ss ks mik ik pairs) mik ik x I =
   matvec r0 radd rmul n (fun I J => ent I J (efield_dense RO g st ss quad kr ks Et Es pairs mik ik)) x I.
 Proof.
   intros x I. unfold glue_efield, efield_dense.
   rewrite dense_matvec_split by (apply sing_cols; assumption).
   unfold sing_part. f_equal. unfold from_rwg, to_rwg, fmm.
   rewrite (sumN_ext 3 _ (fun c => bil G4 g g st ss Et Es quad adj (rwg_val RO g c) (rwg_val RO g c) 0%nat x I))
-    by (intros c _; apply (BIL slot_pos slot_pos Hpos_t Hpos_s HEs_lt Hnb_nodup Hnb)).
-  rewrite (BIL slot_pos slot_pos Hpos_t Hpos_s HEs_lt Hnb_nodup Hnb).
+    by (intros c _; apply (BIL (slot_pos ver) (slot_pos ver) Hpos_t Hpos_s HEs_lt Hnb_nodup Hnb)).
+  rewrite (BIL (slot_pos ver) (slot_pos ver) Hpos_t Hpos_s HEs_lt Hnb_nodup Hnb).
   pose (L := [(mik, rwg_val RO g 0, rwg_val RO g 0, 0%nat); (mik, rwg_val RO g 1, rwg_val RO g 1, 0%nat);
               (mik, rwg_val RO g 2, rwg_val RO g 2, 0%nat);
               (r0 - rinv ik, div_val RO g, div_val RO g, 0%nat)] : list pass).
@@ -618,7 +629,7 @@ Proof.
 Qed.
 
 Theorem glue_mfield_correct : forall x I,
-  glue_mfield RO G4 g g st ss Et Es nE quad nbrs (mfield_singular RO g st ss ks dist ik pairs) x I =
+  glue_mfield RO ver G4 g g st ss Et Es nE quad nbrs (mfield_singular RO g st ss ks dist ik pairs) x I =
   matvec r0 radd rmul n (fun I J => ent I J (mfield_dense RO g st ss quad kr ks Et Es pairs dist ik)) x I.
 Proof.
   intros x I. unfold glue_mfield, mfield_dense.
@@ -630,7 +641,7 @@ Proof.
               (m1, rwg_val RO g 2, rwg_val RO g 1, 1%nat); (r1, rwg_val RO g 2, rwg_val RO g 0, 2%nat)] : list pass).
   transitivity (sum (fun t => p_coef t * bil G4 g g st ss Et Es quad adj (p_vt t) (p_vs t) (p_c t) x I) L).
   { rewrite sumN_3. unfold mf_curl, mf_vals, to_rwg, fmm. rewrite !from_points_sub.
-    rewrite !(BIL slot_pos slot_pos Hpos_t Hpos_s HEs_lt Hnb_nodup Hnb).
+    rewrite !(BIL (slot_pos ver) (slot_pos ver) Hpos_t Hpos_s HEs_lt Hnb_nodup Hnb).
     unfold L, m1. simpl. unfold p_coef, p_vt, p_vs, p_c. simpl. ring. }
   rewrite bil_comb. unfold mfield_regular. rewrite reg_matvec by assumption.
   apply sum_ext; intros e He. apply sum_ext; intros f Hf. apply sumN_ext; intros i _. apply sumN_ext; intros j _.
@@ -671,15 +682,15 @@ Proof.
 Qed.
 
 Lemma curl_part_bil : forall x I,
-  curl_part RO G4 g g st ss Et Es nE quad nbrs x I =
+  curl_part RO ver G4 g g st ss Et Es nE quad nbrs x I =
   sumN 3 (fun c => bil G4 g g st ss Et Es quad adj (curl_val RO g st c) (curl_val RO g ss c) 0%nat x I).
 Proof.
   intros x I. unfold curl_part, fmm. apply sumN_ext. intros c _.
-  apply (BIL slot_pos slot_pos Hpos_t Hpos_s HEs_lt Hnb_nodup Hnb).
+  apply (BIL (slot_pos ver) (slot_pos ver) Hpos_t Hpos_s HEs_lt Hnb_nodup Hnb).
 Qed.
 
 Theorem glue_ghyp_correct : forall kap x I,
-  curl_part RO G4 g g st ss Et Es nE quad nbrs x I + kap * normal_part RO G4 g g st ss Et Es nE quad nbrs x I =
+  curl_part RO ver G4 g g st ss Et Es nE quad nbrs x I + kap * normal_part RO G4 g g st ss Et Es nE quad nbrs x I =
   matvec r0 radd rmul n (fun I J => ent I J
      (reg_assemble RO g st ss true Et Es (ghyp_loc RO g g st ss quad kr kap) (mult_fac RO st ss))) x I.
 Proof.
@@ -707,8 +718,8 @@ Qed.
 Notation SingH v := (sing_assemble RO st ss pairs v).
 
 Theorem glue_helmholtz_hypersingular_correct : forall k x,
-  maps_ok Et Es = true ->
-  exists f, glue_helmholtz_hypersingular RO G4 g g st ss Et Es nE quad nbrs
+  maps_ok ver Et Es = true ->
+  exists f, glue_helmholtz_hypersingular RO ver G4 g g st ss Et Es nE quad nbrs
               (helm_hyp_singular RO g st ss ks k pairs) k x = Some f /\
             forall I, f I = matvec r0 radd rmul n
                               (fun I J => ent I J (helm_hyp_dense RO g st ss quad kr ks Et Es pairs k)) x I.
@@ -716,15 +727,15 @@ Proof.
   intros k x Hok. unfold glue_helmholtz_hypersingular. rewrite Hok. eexists. split; [reflexivity|]. intros I.
   unfold helm_hyp_dense. rewrite dense_matvec_split by (apply sing_cols; assumption).
   unfold sing_part. f_equal.
-  transitivity (curl_part RO G4 g g st ss Et Es nE quad nbrs x I +
+  transitivity (curl_part RO ver G4 g g st ss Et Es nE quad nbrs x I +
                 (r0 - k * k) * normal_part RO G4 g g st ss Et Es nE quad nbrs x I); [ring|].
   rewrite glue_ghyp_correct. unfold matvec. apply sumN_ext. intros J _. f_equal. unfold helm_hyp_regular.
   apply entry_reg_ext. intros. unfold masked. rewrite (helm_is_ghyp g g st ss quad kr Hst Hss). reflexivity.
 Qed.
 
 Theorem glue_modhelm_hypersingular_correct : forall k x,
-  maps_ok Et Es = true ->
-  exists f, glue_modhelm_hypersingular RO G4 g g st ss Et Es nE quad nbrs
+  maps_ok ver Et Es = true ->
+  exists f, glue_modhelm_hypersingular RO ver G4 g g st ss Et Es nE quad nbrs
               (modhelm_hyp_singular RO g st ss ks k pairs) k x = Some f /\
             forall I, f I = matvec r0 radd rmul n
                               (fun I J => ent I J (modhelm_hyp_dense RO g st ss quad kr ks Et Es pairs k)) x I.
@@ -737,8 +748,8 @@ Proof.
 Qed.
 
 Theorem glue_laplace_hypersingular_correct : forall x,
-  maps_ok Et Es = true ->
-  exists f, glue_laplace_hypersingular RO G4 g g st ss Et Es nE quad nbrs
+  maps_ok ver Et Es = true ->
+  exists f, glue_laplace_hypersingular RO ver G4 g g st ss Et Es nE quad nbrs
               (lap_hyp_singular RO g st ss ks pairs) x = Some f /\
             forall I, f I = matvec r0 radd rmul n
                               (fun I J => ent I J (lap_hyp_dense RO g st ss quad kr ks Et Es pairs)) x I.
@@ -746,7 +757,7 @@ Proof.
   intros x Hok. unfold glue_laplace_hypersingular. rewrite Hok. eexists. split; [reflexivity|]. intros I.
   unfold lap_hyp_dense. rewrite dense_matvec_split by (apply sing_cols; assumption).
   unfold sing_part. f_equal.
-  transitivity (curl_part RO G4 g g st ss Et Es nE quad nbrs x I +
+  transitivity (curl_part RO ver G4 g g st ss Et Es nE quad nbrs x I +
                 r0 * normal_part RO G4 g g st ss Et Es nE quad nbrs x I); [ring|].
   rewrite glue_ghyp_correct. unfold matvec. apply sumN_ext. intros J _. f_equal. unfold lap_hyp_regular.
   apply entry_reg_ext. intros. unfold masked. rewrite (lap_is_ghyp g g st ss quad kr). reflexivity.
